@@ -25,7 +25,9 @@ META = {
             "non-trivial = all five comparisons were made",
     "assumptions": ["arguments are JSON-representable values (lists, never tuples), the 7 known type objects for type "
                     "conditions, or data paths; literal mapping keys containing the escape code '\\path' itself are "
-                    "outside the fragment"],
+                    "outside the fragment",
+                    "a type argument without a spec name (tuple, bytes, complex, type, set): serialising may refuse "
+                    "(KeyError); what it returns is judged like everything else"],
     "bounds": {"quick": {"tree_depth": 2}, "thorough": {"tree_depth": 3}},
 }
 
@@ -182,8 +184,16 @@ def confusable():
     return out
 
 
+# type arguments that have no name in specs (only the seven JSON-ish types have one): serialising may refuse, but
+# what it returns must be pure JSON all the same
+UNNAMED = [L("Value", "is_instance", tuple), L("Value", "is_instance", int, bytes), L("Value", "keys_is_instance", complex),
+           L("ValueDataType", "is_instance", type), L("ValueDataType", "equal_to", tuple), L("ValueDataType", "in_", [int, tuple]),
+           L("KeyDataType", "not_in", [set]), L("ValueDataType", "in_range", lower=tuple, upper=2),
+           ("and", L("Value", "is_instance", int, tuple), L("Value", "truthy")), ("or", L("Value", "truthy"), L("Value", "keys_is_instance", tuple))]
+
+
 def units(tier):
-    return gen.chunks(len(_terms(tier)), 60) + [["H", i] for i in range(len(confusable()))]
+    return gen.chunks(len(_terms(tier)), 60) + [["H", i] for i in range(len(confusable()))] + [["UNNAMED"]]
 
 
 def run_unit(unit, tier):
@@ -194,6 +204,10 @@ def run_unit(unit, tier):
         for n, j in enumerate(order):
             check_case(res, pool[j], key=("H", unit[1], n), history=[pool[k] for k in order[:n]])
         res.sample({"term": pool[unit[1]], "history": []})
+        return res
+    if unit[0] == "UNNAMED":
+        for i, t in enumerate(UNNAMED):
+            check_case(res, t, key=("UNNAMED", i), may_refuse=True)
         return res
     ts = _terms(tier)
     for i in range(unit[0], unit[1]):
@@ -206,7 +220,7 @@ def replay(case):
     res = Result()
     for t in case.get("history", []):
         check_case(Result(), t, key=("replay-h",))
-    check_case(res, case["term"], key=("replay",))
+    check_case(res, case["term"], key=("replay",), may_refuse=case["term"] in UNNAMED)
     return list(res.violations.values())
 
 
@@ -227,7 +241,7 @@ def probe_docs(t):
     return docs
 
 
-def check_case(res, t, key, history=None):
+def check_case(res, t, key, history=None, may_refuse=False):
     res.count("evaluations")
     res.state(*key)
     case = {"term": t}
@@ -243,6 +257,10 @@ def check_case(res, t, key, history=None):
     try:
         js = c.to_json_like()
     except BaseException as e:
+        if may_refuse and isinstance(e, (KeyError, TypeError, ValueError, NotImplementedError)):
+            res.count("refused_unnamed_type")
+            res.outcome("refused")
+            return
         res.violation("serialise:%s:%s" % (type(e).__name__, nm), "%s.to_json_like() raised %r" % (T.show(t), e), case,
                       observed=repr(e), expected="JSON-compatible data")
         return
